@@ -16,7 +16,7 @@
 //!   T <tid>                  spawn worker thread <tid>   (thread 0 is the main thread)
 //!   E <seq> <tid> <id> [t]   expand input <id> on thread <tid>; prints an R line.  `t`: as a *token-built*
 //!                            input (every span is the call site: what another macro would hand over)
-//!   X <seqA> <tidA> <idA> <seqB> <tidB> <idB> <seed>   expand two inputs concurrently on two worker threads under
+//!   X <seed> <n> (<seq> <tid> <id>) x n    expand two or three inputs concurrently on as many worker threads under
 //!                            a seeded interleaving; prints two R lines and a K line (number of switches)
 //!   P <tid> <n> <seed>       heap perturbation on thread <tid>: n seeded allocations, some kept
 //!   O <tid> <policy> <seed> [<file>:<line>]  (hooked build) order policy + container seed for later expansions on <tid>, optionally for one iteration site only
@@ -246,14 +246,14 @@ pub struct Baton {
 
 struct BatonState {
     turn: usize,
-    done: [bool; 2],
+    done: Vec<bool>,
     rng: u64,
     switches: u64,
 }
 
 impl Baton {
-    fn new(seed: u64) -> Baton {
-        Baton { state: std::sync::Mutex::new(BatonState { turn: (seed & 1) as usize, done: [false, false], rng: seed | 1, switches: 0 }), cv: std::sync::Condvar::new() }
+    fn new(seed: u64, n: usize) -> Baton {
+        Baton { state: std::sync::Mutex::new(BatonState { turn: (seed % n as u64) as usize, done: vec![false; n], rng: seed | 1, switches: 0 }), cv: std::sync::Condvar::new() }
     }
     fn wait_turn(&self, me: usize) {
         let mut st = self.state.lock().unwrap();
@@ -261,15 +261,25 @@ impl Baton {
             st = self.cv.wait(st).unwrap();
         }
     }
+    /// some other member that has not finished yet, chosen by the seeded stream
+    fn pick_other(st: &mut BatonState, me: usize) -> Option<usize> {
+        let others: Vec<usize> = (0..st.done.len()).filter(|i| *i != me && !st.done[*i]).collect();
+        if others.is_empty() {
+            None
+        } else {
+            let r = xorshift(&mut st.rng);
+            Some(others[(r % others.len() as u64) as usize])
+        }
+    }
     #[allow(dead_code)]
     fn maybe_switch(&self, me: usize) {
         let mut st = self.state.lock().unwrap();
-        if st.done[1 - me] {
+        let r = xorshift(&mut st.rng);
+        if r % 3 != 0 {
             return;
         }
-        let r = xorshift(&mut st.rng);
-        if r % 3 == 0 {
-            st.turn = 1 - me;
+        if let Some(next) = Baton::pick_other(&mut st, me) {
+            st.turn = next;
             st.switches += 1;
             self.cv.notify_all();
             while st.turn != me {
@@ -280,7 +290,9 @@ impl Baton {
     fn finish(&self, me: usize) {
         let mut st = self.state.lock().unwrap();
         st.done[me] = true;
-        st.turn = 1 - me;
+        if let Some(next) = Baton::pick_other(&mut st, me) {
+            st.turn = next;
+        }
         self.cv.notify_all();
     }
 }
@@ -483,11 +495,19 @@ fn main() {
                 dispatch(tid, Cmd::Expand { seq, tid, id, src, token_built }, &threads, &mut out);
             },
             Some("X") => {
-                // X <seqA> <tidA> <idA> <seqB> <tidB> <idB> <schedule seed>
+                // X <schedule seed> <n> then n times: <seq> <tid> <id>   (n = 2 or 3 worker threads)
                 let v: Vec<u64> = f.map(|x| x.parse().unwrap()).collect();
-                if v.len() != 7 || v[1] == 0 || v[4] == 0 || v[1] == v[4] {
-                    eprintln!("host: bad X record (needs two different worker threads)");
+                let n = if v.len() >= 2 { v[1] as usize } else { 0 };
+                if n < 2 || n > 3 || v.len() != 2 + 3 * n {
+                    eprintln!("host: bad X record");
                     std::process::exit(2);
+                }
+                let members: Vec<(u64, u32, u32)> = (0..n).map(|k| (v[2 + 3 * k], v[3 + 3 * k] as u32, v[4 + 3 * k] as u32)).collect();
+                for (i, m) in members.iter().enumerate() {
+                    if m.1 == 0 || members[..i].iter().any(|o| o.1 == m.1) {
+                        eprintln!("host: bad X record (needs different worker threads)");
+                        std::process::exit(2);
+                    }
                 }
                 let src = |id: u32| -> std::sync::Arc<String> {
                     match inputs.iter().find(|x| x.0 == id) {
@@ -498,18 +518,25 @@ fn main() {
                         },
                     }
                 };
-                let baton = std::sync::Arc::new(Baton::new(v[6]));
-                let ta = threads.iter().find(|t| t.0 == v[1] as u32).expect("thread A");
-                let tb = threads.iter().find(|t| t.0 == v[4] as u32).expect("thread B");
-                ta.1.send(Cmd::ExpandCo { seq: v[0], tid: v[1] as u32, id: v[2] as u32, src: src(v[2] as u32), baton: baton.clone(), me: 0 }).expect("worker gone");
-                tb.1.send(Cmd::ExpandCo { seq: v[3], tid: v[4] as u32, id: v[5] as u32, src: src(v[5] as u32), baton: baton.clone(), me: 1 }).expect("worker gone");
+                let baton = std::sync::Arc::new(Baton::new(v[0], n));
+                for (me, m) in members.iter().enumerate() {
+                    let t = match threads.iter().find(|t| t.0 == m.1) {
+                        Some(t) => t,
+                        None => {
+                            eprintln!("host: unknown thread {}", m.1);
+                            std::process::exit(2);
+                        },
+                    };
+                    t.1.send(Cmd::ExpandCo { seq: m.0, tid: m.1, id: m.2, src: src(m.2), baton: baton.clone(), me }).expect("worker gone");
+                }
                 // results are printed in a fixed order, whoever finished first
-                let ra = ta.2.recv().expect("worker died");
-                let rb = tb.2.recv().expect("worker died");
-                out.write_all(ra.as_bytes()).unwrap();
-                out.write_all(rb.as_bytes()).unwrap();
+                for m in &members {
+                    let t = threads.iter().find(|t| t.0 == m.1).unwrap();
+                    let r = t.2.recv().expect("worker died");
+                    out.write_all(r.as_bytes()).unwrap();
+                }
                 let sw = baton.state.lock().unwrap().switches;
-                writeln!(out, "K {} {}", v[0], sw).unwrap();
+                writeln!(out, "K {} {}", members[0].0, sw).unwrap();
             },
             Some("P") => {
                 let tid: u32 = f.next().unwrap().parse().unwrap();
